@@ -15,21 +15,27 @@ type Value = atomic.Value
 
 type Int32 struct{ v atomic.Int32 }
 
-func (x *Int32) Load() int32            { verifrt.Y(siteAtomic); return x.v.Load() }
-func (x *Int32) Store(val int32)        { verifrt.Y(siteAtomic); x.v.Store(val) }
-func (x *Int32) Swap(new int32) int32     { verifrt.Y(siteAtomic); return x.v.Swap(new) }
-func (x *Int32) Add(delta int32) int32    { verifrt.Y(siteAtomic); return x.v.Add(delta) }
-func (x *Int32) And(mask int32) int32     { verifrt.Y(siteAtomic); return x.v.And(mask) }
-func (x *Int32) Or(mask int32) int32      { verifrt.Y(siteAtomic); return x.v.Or(mask) }
+func (x *Int32) Load() int32           { verifrt.Y(siteAtomic); return x.v.Load() }
+func (x *Int32) Store(val int32)       { verifrt.Y(siteAtomic); x.v.Store(val) }
+func (x *Int32) Swap(new int32) int32  { verifrt.Y(siteAtomic); return x.v.Swap(new) }
+func (x *Int32) Add(delta int32) int32 { verifrt.Y(siteAtomic); return x.v.Add(delta) }
+func (x *Int32) And(mask int32) int32  { verifrt.Y(siteAtomic); return x.v.And(mask) }
+func (x *Int32) Or(mask int32) int32   { verifrt.Y(siteAtomic); return x.v.Or(mask) }
 func (x *Int32) CompareAndSwap(old, new int32) bool {
 	verifrt.Y(siteAtomic)
 	return x.v.CompareAndSwap(old, new)
 }
 
-func LoadInt32(addr *int32) int32         { verifrt.Y(siteAtomic); return atomic.LoadInt32(addr) }
-func StoreInt32(addr *int32, val int32)   { verifrt.Y(siteAtomic); atomic.StoreInt32(addr, val) }
-func SwapInt32(addr *int32, new int32) int32 { verifrt.Y(siteAtomic); return atomic.SwapInt32(addr, new) }
-func AddInt32(addr *int32, delta int32) int32 { verifrt.Y(siteAtomic); return atomic.AddInt32(addr, delta) }
+func LoadInt32(addr *int32) int32       { verifrt.Y(siteAtomic); return atomic.LoadInt32(addr) }
+func StoreInt32(addr *int32, val int32) { verifrt.Y(siteAtomic); atomic.StoreInt32(addr, val) }
+func SwapInt32(addr *int32, new int32) int32 {
+	verifrt.Y(siteAtomic)
+	return atomic.SwapInt32(addr, new)
+}
+func AddInt32(addr *int32, delta int32) int32 {
+	verifrt.Y(siteAtomic)
+	return atomic.AddInt32(addr, delta)
+}
 func CompareAndSwapInt32(addr *int32, old, new int32) bool {
 	verifrt.Y(siteAtomic)
 	return atomic.CompareAndSwapInt32(addr, old, new)
@@ -37,21 +43,27 @@ func CompareAndSwapInt32(addr *int32, old, new int32) bool {
 
 type Int64 struct{ v atomic.Int64 }
 
-func (x *Int64) Load() int64            { verifrt.Y(siteAtomic); return x.v.Load() }
-func (x *Int64) Store(val int64)        { verifrt.Y(siteAtomic); x.v.Store(val) }
-func (x *Int64) Swap(new int64) int64     { verifrt.Y(siteAtomic); return x.v.Swap(new) }
-func (x *Int64) Add(delta int64) int64    { verifrt.Y(siteAtomic); return x.v.Add(delta) }
-func (x *Int64) And(mask int64) int64     { verifrt.Y(siteAtomic); return x.v.And(mask) }
-func (x *Int64) Or(mask int64) int64      { verifrt.Y(siteAtomic); return x.v.Or(mask) }
+func (x *Int64) Load() int64           { verifrt.Y(siteAtomic); return x.v.Load() }
+func (x *Int64) Store(val int64)       { verifrt.Y(siteAtomic); x.v.Store(val) }
+func (x *Int64) Swap(new int64) int64  { verifrt.Y(siteAtomic); return x.v.Swap(new) }
+func (x *Int64) Add(delta int64) int64 { verifrt.Y(siteAtomic); return x.v.Add(delta) }
+func (x *Int64) And(mask int64) int64  { verifrt.Y(siteAtomic); return x.v.And(mask) }
+func (x *Int64) Or(mask int64) int64   { verifrt.Y(siteAtomic); return x.v.Or(mask) }
 func (x *Int64) CompareAndSwap(old, new int64) bool {
 	verifrt.Y(siteAtomic)
 	return x.v.CompareAndSwap(old, new)
 }
 
-func LoadInt64(addr *int64) int64         { verifrt.Y(siteAtomic); return atomic.LoadInt64(addr) }
-func StoreInt64(addr *int64, val int64)   { verifrt.Y(siteAtomic); atomic.StoreInt64(addr, val) }
-func SwapInt64(addr *int64, new int64) int64 { verifrt.Y(siteAtomic); return atomic.SwapInt64(addr, new) }
-func AddInt64(addr *int64, delta int64) int64 { verifrt.Y(siteAtomic); return atomic.AddInt64(addr, delta) }
+func LoadInt64(addr *int64) int64       { verifrt.Y(siteAtomic); return atomic.LoadInt64(addr) }
+func StoreInt64(addr *int64, val int64) { verifrt.Y(siteAtomic); atomic.StoreInt64(addr, val) }
+func SwapInt64(addr *int64, new int64) int64 {
+	verifrt.Y(siteAtomic)
+	return atomic.SwapInt64(addr, new)
+}
+func AddInt64(addr *int64, delta int64) int64 {
+	verifrt.Y(siteAtomic)
+	return atomic.AddInt64(addr, delta)
+}
 func CompareAndSwapInt64(addr *int64, old, new int64) bool {
 	verifrt.Y(siteAtomic)
 	return atomic.CompareAndSwapInt64(addr, old, new)
@@ -61,19 +73,25 @@ type Uint32 struct{ v atomic.Uint32 }
 
 func (x *Uint32) Load() uint32            { verifrt.Y(siteAtomic); return x.v.Load() }
 func (x *Uint32) Store(val uint32)        { verifrt.Y(siteAtomic); x.v.Store(val) }
-func (x *Uint32) Swap(new uint32) uint32     { verifrt.Y(siteAtomic); return x.v.Swap(new) }
-func (x *Uint32) Add(delta uint32) uint32    { verifrt.Y(siteAtomic); return x.v.Add(delta) }
-func (x *Uint32) And(mask uint32) uint32     { verifrt.Y(siteAtomic); return x.v.And(mask) }
-func (x *Uint32) Or(mask uint32) uint32      { verifrt.Y(siteAtomic); return x.v.Or(mask) }
+func (x *Uint32) Swap(new uint32) uint32  { verifrt.Y(siteAtomic); return x.v.Swap(new) }
+func (x *Uint32) Add(delta uint32) uint32 { verifrt.Y(siteAtomic); return x.v.Add(delta) }
+func (x *Uint32) And(mask uint32) uint32  { verifrt.Y(siteAtomic); return x.v.And(mask) }
+func (x *Uint32) Or(mask uint32) uint32   { verifrt.Y(siteAtomic); return x.v.Or(mask) }
 func (x *Uint32) CompareAndSwap(old, new uint32) bool {
 	verifrt.Y(siteAtomic)
 	return x.v.CompareAndSwap(old, new)
 }
 
-func LoadUint32(addr *uint32) uint32         { verifrt.Y(siteAtomic); return atomic.LoadUint32(addr) }
-func StoreUint32(addr *uint32, val uint32)   { verifrt.Y(siteAtomic); atomic.StoreUint32(addr, val) }
-func SwapUint32(addr *uint32, new uint32) uint32 { verifrt.Y(siteAtomic); return atomic.SwapUint32(addr, new) }
-func AddUint32(addr *uint32, delta uint32) uint32 { verifrt.Y(siteAtomic); return atomic.AddUint32(addr, delta) }
+func LoadUint32(addr *uint32) uint32       { verifrt.Y(siteAtomic); return atomic.LoadUint32(addr) }
+func StoreUint32(addr *uint32, val uint32) { verifrt.Y(siteAtomic); atomic.StoreUint32(addr, val) }
+func SwapUint32(addr *uint32, new uint32) uint32 {
+	verifrt.Y(siteAtomic)
+	return atomic.SwapUint32(addr, new)
+}
+func AddUint32(addr *uint32, delta uint32) uint32 {
+	verifrt.Y(siteAtomic)
+	return atomic.AddUint32(addr, delta)
+}
 func CompareAndSwapUint32(addr *uint32, old, new uint32) bool {
 	verifrt.Y(siteAtomic)
 	return atomic.CompareAndSwapUint32(addr, old, new)
@@ -83,19 +101,25 @@ type Uint64 struct{ v atomic.Uint64 }
 
 func (x *Uint64) Load() uint64            { verifrt.Y(siteAtomic); return x.v.Load() }
 func (x *Uint64) Store(val uint64)        { verifrt.Y(siteAtomic); x.v.Store(val) }
-func (x *Uint64) Swap(new uint64) uint64     { verifrt.Y(siteAtomic); return x.v.Swap(new) }
-func (x *Uint64) Add(delta uint64) uint64    { verifrt.Y(siteAtomic); return x.v.Add(delta) }
-func (x *Uint64) And(mask uint64) uint64     { verifrt.Y(siteAtomic); return x.v.And(mask) }
-func (x *Uint64) Or(mask uint64) uint64      { verifrt.Y(siteAtomic); return x.v.Or(mask) }
+func (x *Uint64) Swap(new uint64) uint64  { verifrt.Y(siteAtomic); return x.v.Swap(new) }
+func (x *Uint64) Add(delta uint64) uint64 { verifrt.Y(siteAtomic); return x.v.Add(delta) }
+func (x *Uint64) And(mask uint64) uint64  { verifrt.Y(siteAtomic); return x.v.And(mask) }
+func (x *Uint64) Or(mask uint64) uint64   { verifrt.Y(siteAtomic); return x.v.Or(mask) }
 func (x *Uint64) CompareAndSwap(old, new uint64) bool {
 	verifrt.Y(siteAtomic)
 	return x.v.CompareAndSwap(old, new)
 }
 
-func LoadUint64(addr *uint64) uint64         { verifrt.Y(siteAtomic); return atomic.LoadUint64(addr) }
-func StoreUint64(addr *uint64, val uint64)   { verifrt.Y(siteAtomic); atomic.StoreUint64(addr, val) }
-func SwapUint64(addr *uint64, new uint64) uint64 { verifrt.Y(siteAtomic); return atomic.SwapUint64(addr, new) }
-func AddUint64(addr *uint64, delta uint64) uint64 { verifrt.Y(siteAtomic); return atomic.AddUint64(addr, delta) }
+func LoadUint64(addr *uint64) uint64       { verifrt.Y(siteAtomic); return atomic.LoadUint64(addr) }
+func StoreUint64(addr *uint64, val uint64) { verifrt.Y(siteAtomic); atomic.StoreUint64(addr, val) }
+func SwapUint64(addr *uint64, new uint64) uint64 {
+	verifrt.Y(siteAtomic)
+	return atomic.SwapUint64(addr, new)
+}
+func AddUint64(addr *uint64, delta uint64) uint64 {
+	verifrt.Y(siteAtomic)
+	return atomic.AddUint64(addr, delta)
+}
 func CompareAndSwapUint64(addr *uint64, old, new uint64) bool {
 	verifrt.Y(siteAtomic)
 	return atomic.CompareAndSwapUint64(addr, old, new)
@@ -103,21 +127,26 @@ func CompareAndSwapUint64(addr *uint64, old, new uint64) bool {
 
 type Uintptr struct{ v atomic.Uintptr }
 
-func (x *Uintptr) Load() uintptr            { verifrt.Y(siteAtomic); return x.v.Load() }
-func (x *Uintptr) Store(val uintptr)        { verifrt.Y(siteAtomic); x.v.Store(val) }
-func (x *Uintptr) Swap(new uintptr) uintptr     { verifrt.Y(siteAtomic); return x.v.Swap(new) }
-func (x *Uintptr) Add(delta uintptr) uintptr    { verifrt.Y(siteAtomic); return x.v.Add(delta) }
-
+func (x *Uintptr) Load() uintptr             { verifrt.Y(siteAtomic); return x.v.Load() }
+func (x *Uintptr) Store(val uintptr)         { verifrt.Y(siteAtomic); x.v.Store(val) }
+func (x *Uintptr) Swap(new uintptr) uintptr  { verifrt.Y(siteAtomic); return x.v.Swap(new) }
+func (x *Uintptr) Add(delta uintptr) uintptr { verifrt.Y(siteAtomic); return x.v.Add(delta) }
 
 func (x *Uintptr) CompareAndSwap(old, new uintptr) bool {
 	verifrt.Y(siteAtomic)
 	return x.v.CompareAndSwap(old, new)
 }
 
-func LoadUintptr(addr *uintptr) uintptr         { verifrt.Y(siteAtomic); return atomic.LoadUintptr(addr) }
-func StoreUintptr(addr *uintptr, val uintptr)   { verifrt.Y(siteAtomic); atomic.StoreUintptr(addr, val) }
-func SwapUintptr(addr *uintptr, new uintptr) uintptr { verifrt.Y(siteAtomic); return atomic.SwapUintptr(addr, new) }
-func AddUintptr(addr *uintptr, delta uintptr) uintptr { verifrt.Y(siteAtomic); return atomic.AddUintptr(addr, delta) }
+func LoadUintptr(addr *uintptr) uintptr       { verifrt.Y(siteAtomic); return atomic.LoadUintptr(addr) }
+func StoreUintptr(addr *uintptr, val uintptr) { verifrt.Y(siteAtomic); atomic.StoreUintptr(addr, val) }
+func SwapUintptr(addr *uintptr, new uintptr) uintptr {
+	verifrt.Y(siteAtomic)
+	return atomic.SwapUintptr(addr, new)
+}
+func AddUintptr(addr *uintptr, delta uintptr) uintptr {
+	verifrt.Y(siteAtomic)
+	return atomic.AddUintptr(addr, delta)
+}
 func CompareAndSwapUintptr(addr *uintptr, old, new uintptr) bool {
 	verifrt.Y(siteAtomic)
 	return atomic.CompareAndSwapUintptr(addr, old, new)
@@ -125,9 +154,9 @@ func CompareAndSwapUintptr(addr *uintptr, old, new uintptr) bool {
 
 type Bool struct{ v atomic.Bool }
 
-func (x *Bool) Load() bool          { verifrt.Y(siteAtomic); return x.v.Load() }
-func (x *Bool) Store(val bool)      { verifrt.Y(siteAtomic); x.v.Store(val) }
-func (x *Bool) Swap(new bool) bool  { verifrt.Y(siteAtomic); return x.v.Swap(new) }
+func (x *Bool) Load() bool         { verifrt.Y(siteAtomic); return x.v.Load() }
+func (x *Bool) Store(val bool)     { verifrt.Y(siteAtomic); x.v.Store(val) }
+func (x *Bool) Swap(new bool) bool { verifrt.Y(siteAtomic); return x.v.Swap(new) }
 func (x *Bool) CompareAndSwap(old, new bool) bool {
 	verifrt.Y(siteAtomic)
 	return x.v.CompareAndSwap(old, new)
@@ -135,9 +164,9 @@ func (x *Bool) CompareAndSwap(old, new bool) bool {
 
 type Pointer[T any] struct{ v atomic.Pointer[T] }
 
-func (x *Pointer[T]) Load() *T         { verifrt.Y(siteAtomic); return x.v.Load() }
-func (x *Pointer[T]) Store(val *T)     { verifrt.Y(siteAtomic); x.v.Store(val) }
-func (x *Pointer[T]) Swap(new *T) *T   { verifrt.Y(siteAtomic); return x.v.Swap(new) }
+func (x *Pointer[T]) Load() *T       { verifrt.Y(siteAtomic); return x.v.Load() }
+func (x *Pointer[T]) Store(val *T)   { verifrt.Y(siteAtomic); x.v.Store(val) }
+func (x *Pointer[T]) Swap(new *T) *T { verifrt.Y(siteAtomic); return x.v.Swap(new) }
 func (x *Pointer[T]) CompareAndSwap(old, new *T) bool {
 	verifrt.Y(siteAtomic)
 	return x.v.CompareAndSwap(old, new)
@@ -158,4 +187,39 @@ func SwapPointer(addr *unsafe.Pointer, new unsafe.Pointer) unsafe.Pointer {
 func CompareAndSwapPointer(addr *unsafe.Pointer, old, new unsafe.Pointer) bool {
 	verifrt.Y(siteAtomic)
 	return atomic.CompareAndSwapPointer(addr, old, new)
+}
+
+func AndInt32(addr *int32, mask int32) int32 {
+	verifrt.Y(siteAtomic)
+	return atomic.AndInt32(addr, mask)
+}
+func AndInt64(addr *int64, mask int64) int64 {
+	verifrt.Y(siteAtomic)
+	return atomic.AndInt64(addr, mask)
+}
+func AndUint32(addr *uint32, mask uint32) uint32 {
+	verifrt.Y(siteAtomic)
+	return atomic.AndUint32(addr, mask)
+}
+func AndUint64(addr *uint64, mask uint64) uint64 {
+	verifrt.Y(siteAtomic)
+	return atomic.AndUint64(addr, mask)
+}
+func AndUintptr(addr *uintptr, mask uintptr) uintptr {
+	verifrt.Y(siteAtomic)
+	return atomic.AndUintptr(addr, mask)
+}
+func OrInt32(addr *int32, mask int32) int32 { verifrt.Y(siteAtomic); return atomic.OrInt32(addr, mask) }
+func OrInt64(addr *int64, mask int64) int64 { verifrt.Y(siteAtomic); return atomic.OrInt64(addr, mask) }
+func OrUint32(addr *uint32, mask uint32) uint32 {
+	verifrt.Y(siteAtomic)
+	return atomic.OrUint32(addr, mask)
+}
+func OrUint64(addr *uint64, mask uint64) uint64 {
+	verifrt.Y(siteAtomic)
+	return atomic.OrUint64(addr, mask)
+}
+func OrUintptr(addr *uintptr, mask uintptr) uintptr {
+	verifrt.Y(siteAtomic)
+	return atomic.OrUintptr(addr, mask)
 }
